@@ -1,5 +1,7 @@
 package main
 
+import "go/types"
+
 // Registry: which rules decide which property. Explanations are copied into the evidence on every run.
 
 var commonAssumptions = []string{
@@ -23,7 +25,38 @@ func init() {
 			{Name: "C13.R1", Run: func(c *Ctx) { ruleAdjustPure(c, "C13.R1") }},
 			{Name: "C13.R2", Run: func(c *Ctx) { ruleRelocationComplete(c, "C13.R2") }},
 			{Name: "C13.R3", Run: func(c *Ctx) { ruleProgramReadOnly(c, "C13.R3") }},
+			{Name: "C13.R4", Run: func(c *Ctx) { ruleCommandScope(c, "C13.R4") }},
 			{Name: "C13.R5", Run: func(c *Ctx) { ruleGlobalsReinit(c, "C13.R5") }},
+		},
+	})
+	register(&Property{
+		ID: "C11",
+		Explanation: "Decides that the evaluator implements the documented operator/coercion table: (R1) for every documented cell the leaf of executeBinaryExpr, extracted by partial evaluation over the tag domain (operator x operand types), reads both operands through the accessor of the left operand's type, applies the documented Go operator and builds the documented result type; the oracle is the Type Coersion table of docs/language/LanguageDetails.md, parsed on every run; " +
+			"(R2) the nine coercion accessors compute the documented conversions; (R3) the Pratt parser's binding powers give the documented precedence levels and left associativity; (R4) not/head/tail. " +
+			"Does NOT decide strconv and Go operator semantics (trusted), nor integer overflow behaviour.",
+		Assumptions: append([]string{"the documentation table is the specification; a documented row with a coerced-number left operand denotes string-on-the-left with a number on the right"}, commonAssumptions...),
+		Rules: []RuleFn{
+			{Name: "C11.R1", Run: func(c *Ctx) { ruleEvaluatorTable(c, "C11.R1") }},
+			{Name: "C11.R2", Run: func(c *Ctx) { ruleCoercions(c, "C11.R2") }},
+			{Name: "C11.R3", Run: func(c *Ctx) { rulePrecedence(c, "C11.R3") }},
+			{Name: "C11.R4", Run: func(c *Ctx) { ruleUnaryTable(c, "C11.R4") }},
+		},
+	})
+	register(&Property{
+		ID: "C12",
+		Explanation: "Decides that the static checker accepts exactly the documented operand-type combinations: (R1) the full decision table of checkBinaryExpr/checkUnaryExpr over {string,number,bool,error}^2 x 13 operators (208+12 cells, extracted by partial evaluation) equals the documented table in both directions, including error propagation from either operand; " +
+			"(R2) every accepted cell has a non-panicking evaluator leaf of the promised result type; (R3) statement rules: if needs bool, return by context, break/continue only in loop, loop restores the inLoop flag; (R4) both generators run the checker on every statement before succeeding; (R5) statement/expression dispatch completeness. " +
+			"Does NOT decide flow-sensitive typing (excluded by the property).",
+		Assumptions: append([]string{"the documentation table is the specification"}, commonAssumptions...),
+		Rules: []RuleFn{
+			{Name: "C12.R1", Run: func(c *Ctx) { t := ruleCheckerTable(c, "C12.R1"); ruleCheckerSubsetEvaluator(c, "C12.R2", t) }},
+			{Name: "C12.R3", Run: func(c *Ctx) { ruleStatementRules(c, "C12.R3") }},
+			{Name: "C12.R4", Run: func(c *Ctx) { ruleCheckerAlwaysRun(c, "C12.R4") }},
+			{Name: "C12.R5", Run: func(c *Ctx) {
+				ruleTypeSwitchComplete(c, "C12.R5", []string{"bytecode", "engine"}, func(n *types.Named) bool {
+					return n.Obj().Name() == "AstProcessStatement" || n.Obj().Name() == "AstProcessExpression"
+				}, 4)
+			}},
 		},
 	})
 	register(&Property{
